@@ -160,6 +160,27 @@ structure Cfg where
   zipMember : Option Nat
   deriving Repr
 
+/-- one write job: where, what, under which fresh temp names; `closeInBody` = the writer closes the
+    file itself inside its with-block (harmless either way) -/
+structure Job where
+  dir : Path
+  name : Nat
+  t : Nat
+  u : Nat
+  chunks : List Data
+  closeInBody : Bool
+  zipMember : Option Nat
+  deriving Repr
+
+/-- **the code as it is now** (util/io.py after `fix:` 3deaff175, format/alignment.py after ff8d48a2e,
+    util/table.py after 5df264d66): one-call commit `src.replace(dest)`, cleanup in a `finally`,
+    guarded `__enter__`, every writer inside a with-block, no writer-level unlink of the destination.
+    The other values of the variant fields describe historical versions and are kept only so that a
+    regression can be named (see the `historical_*` theorems). -/
+def Job.cfg (j : Job) : Cfg :=
+  { commit := .replace, guarded := true, withBlock := true, bodyUnlink := false, closeInBody := j.closeInBody,
+    dir := j.dir, name := j.name, t := j.t, u := j.u, chunks := j.chunks, zipMember := j.zipMember }
+
 def Cfg.dest (c : Cfg) : Path := c.dir ++ [c.name]
 def Cfg.tmpdir (c : Cfg) : Path := c.dir ++ [c.t]
 def Cfg.tmpfile (c : Cfg) : Path := c.dir ++ [c.t] ++ [c.u]
